@@ -566,8 +566,11 @@ def stage_c(run, tier, rng, replay_cases=None):
     base = {}
     for label, doc in docs:
         with impl.Gen(doc) as g:
-            if g.exc is not None or any(l == "ERROR" for l, _, _ in g.diag()):
+            if g.exc is not None:
                 run.violation("harness-or-generator", {"label": label, "error": repr(g.exc), "diag": g.diag()[:3]})
+                continue
+            if g.diag():
+                run.extra.setdefault("base_documents_skipped_not_valid", []).append(label)      # D must be a VALID document
                 continue
             base[label] = (doc, g.files(), len(g.diag()))
     if replay_cases is not None:
@@ -642,6 +645,44 @@ def stage_c(run, tier, rng, replay_cases=None):
     return results
 
 
+WITNESSES = {
+    "union_dependency_unrecorded": {"A": OBJ({"bad": {"type": "array"}}), "U": {"anyOf": [{"$ref": REF + "A"}, {"type": "string"}]}, "M": OBJ({"u": {"$ref": REF + "U"}})},
+    "union_inline_reprocessed": {"U": {"anyOf": [OBJ({"x": OBJ({"y": {"type": "string"}})}), {"type": "string"}]}, "H": OBJ({"u": {"$ref": REF + "U"}})},
+    "name_pressure_pop": {"MP": OBJ({"q": {"type": "string"}}), "M": OBJ({"p": OBJ({"x": {"type": "string"}})}), "User": OBJ({"m": {"$ref": REF + "MP"}})},
+}
+
+
+def replay_witnesses(run):
+    """every recorded witness is replayed: KNOWN-FINDING only if the implementation still fails on it AND the model's guard is false"""
+    for fid, S in WITNESSES.items():
+        doc = {"openapi": "3.1.0", "info": {"title": "t", "version": "1"}, "paths": {}, "components": {"schemas": S}}
+        with impl.Gen(doc) as g:
+            if g.exc is not None:
+                continue
+            data, _ = impl.parse_doc(doc)
+            from lib import absprop
+            ab = absprop.Abs(data)
+            ops = [{"op": "import_all"}] + [{"op": "roundtrip", "cls": str(m.class_info.name), "data": {}} for m in ab.models]
+            rr = impl.run_client(g.out, ops)
+        broken = []
+        if isinstance(rr, dict):
+            broken.append(rr.get("fatal", "")[-200:])
+        else:
+            broken += [f"{m}: {e}" for m, e in rr[0].get("failed", {}).items()]
+            for m, r in zip(ab.models, rr[1:]):
+                ex = r.get("dec_exc") or r.get("enc_exc")
+                if ex and ex.get("type") in ("ModuleNotFoundError", "ImportError", "NameError"):
+                    broken.append(f"{m.class_info.name}: {ex}")
+        a2 = AG.Abs(doc, cfg())
+        gt = a2.to_coq()
+        guard_false = run_cases(HDR, [f"g_no_union_edge_to_failing {gt} && g_no_name_pressure {gt}"])
+        run.note_case({"witness": fid}, nontrivial=True, kind="C:witness")
+        if broken and guard_false:
+            run.known_finding(fid, f"recorded witness still fails: {broken[0][:200]} (guard false on the abstracted graph)")
+        elif broken:
+            run.violation("oracle", {"witness": fid, "broken": broken[:3], "doc": doc, "note": "a surviving module refers to something that was removed although the guards hold"})
+
+
 def run(run, tier, replay=None):
     rng = run.rng
     run.rule = ("stage B: one case = one document (from a graph spec or a document generator) abstracted to a Graph.v term and compared with the real build_schemas; "
@@ -661,4 +702,5 @@ def run(run, tier, replay=None):
             stage_b(run, tier, rng)
         return
     stage_b(run, tier, rng)
+    replay_witnesses(run)
     stage_c(run, tier, rng)
